@@ -258,7 +258,11 @@ func doHTTP(method, path string, body []byte, hdr map[string]string) (int, []byt
 	req := httptest.NewRequest(method, path, rd)
 	req.Header.Set("Content-Type", "application/json")
 	for k, v := range hdr {
-		req.Header.Set(k, v)
+		if v == "" {
+			req.Header.Del(k)
+		} else {
+			req.Header.Set(k, v)
+		}
 	}
 	rec := httptest.NewRecorder()
 	engine.ServeHTTP(rec, req)
